@@ -8,7 +8,7 @@ from typing import Any, Dict, List, Optional, Set, Tuple
 
 from ..core import Ctx
 from ..interp import ALL, Dual, Event, Interp, LoopSummary, PathResult, State, Tup, View, as_view, NONE
-from ..program import AnalysisError, FuncInfo, Program
+from ..program import AnalysisError, FuncInfo, Program, NO
 from ..roles import get_roles
 from ..effects import aliases_of, MUTATORS, _base_name
 from ..terms import Aff, K, ONE, S, ZERO, atoms_in, cmp_cond, show_val
@@ -628,6 +628,17 @@ def _dead_stack_full_raise(ctx: Ctx, prog: Program, f: FuncInfo) -> bool:
     return res
 
 
+SIGNS_ALL = object()
+
+
+def _len_derived(f: FuncInfo, name: str) -> bool:
+    for n in ast.walk(f.node):
+        if isinstance(n, ast.Assign) and any(isinstance(t, ast.Name) and t.id == name for t in n.targets):
+            if any(isinstance(x, ast.Call) and isinstance(x.func, ast.Name) and x.func.id == "len" for x in ast.walk(n.value)):
+                return True
+    return False
+
+
 def rule_swallowed_raise(ctx: Ctx, prog: Program) -> None:
     """Compiled code calls constraints, heuristics and consistency algorithms through function pointers (function_from_address).  Numba
     cannot propagate an exception out of such a call: it prints 'Exception ignored', the callee returns an arbitrary value and the
@@ -660,6 +671,64 @@ def rule_swallowed_raise(ctx: Ctx, prog: Program) -> None:
                                   "an exception raised there is discarded ('Exception ignored'), the call returns an arbitrary value and the engine "
                                   "carries on -- the error is not reported, compiled and interpreted mode diverge, and a stack-capacity check placed "
                                   "there leaves the state unchanged so that solve_one asks for the same decision for ever")
+    # implicit raises: a division whose divisor can be zero raises ZeroDivisionError in compiled code (Numba keeps Python's error model); behind a
+    # pointer it is discarded like any other exception, and interpreted NumPy arithmetic answers inf / nan / 0 with a warning instead
+    from .propagators import _sign_of_test
+    n_div = 0
+    for fq, (f, regs) in sorted(clo.items()):
+        parents: Dict[int, ast.AST] = {}
+        for x in ast.walk(f.node):
+            for c in ast.iter_child_nodes(x):
+                parents[id(c)] = x
+        for n in ast.walk(f.node):
+            if not (isinstance(n, ast.BinOp) and isinstance(n.op, (ast.Div, ast.FloorDiv, ast.Mod))) and not (isinstance(n, ast.AugAssign) and isinstance(n.op, (ast.Div, ast.FloorDiv, ast.Mod))):
+                continue
+            d = n.right if isinstance(n, ast.BinOp) else n.value
+            while isinstance(d, ast.UnaryOp) and isinstance(d.op, (ast.USub, ast.UAdd)):
+                d = d.operand
+            cv = prog.fold(f.module, d) if isinstance(d, (ast.Constant, ast.Name)) else NO
+            if cv is not NO and isinstance(cv, (int, float)) and cv != 0:
+                continue  # a non-zero constant
+            n_div += 1
+            safe = False
+            if isinstance(d, ast.Name):
+                # dominated by a test that excludes zero: an enclosing `if` whose taken side leaves only pos / neg for the divisor
+                cur: ast.AST = n
+                while id(cur) in parents and not safe:
+                    par = parents[id(cur)]
+                    if isinstance(par, ast.If):
+                        sg = _sign_of_test(par.test, d.id)
+                        # conjunctions: any conjunct that excludes zero on the true side
+                        conj = par.test.values if isinstance(par.test, ast.BoolOp) and isinstance(par.test.op, ast.And) else [par.test]
+                        sgs = [_sign_of_test(t_, d.id) for t_ in conj]
+                        in_body = any(cur is b_ for b_ in par.body)
+                        in_else = any(cur is b_ for b_ in par.orelse)
+                        if in_body and any(s_ is not None and "zero" not in s_[0] for s_ in sgs):
+                            safe = True
+                        if in_else and sg is not None and "zero" not in sg[1]:
+                            safe = True
+                    if isinstance(par, ast.BoolOp) and isinstance(par.op, ast.And):
+                        k_ = next((i for i, v_ in enumerate(par.values) if v_ is cur), None)
+                        if k_ is not None and any((_sign_of_test(v_, d.id) or (SIGNS_ALL,))[0] is not SIGNS_ALL and "zero" not in _sign_of_test(v_, d.id)[0] for v_ in par.values[:k_]):
+                            safe = True  # short-circuit: a conjunct to the left excludes zero
+                    if isinstance(par, ast.IfExp):
+                        sg = _sign_of_test(par.test, d.id)
+                        if sg is not None and ((cur is par.body and "zero" not in sg[0]) or (cur is par.orelse and "zero" not in sg[1])):
+                            safe = True
+                    cur = par
+            what = ast.unparse(n).split("\n")[0][:70]
+            if safe:
+                ctx.ok("R-SWALLOWED-RAISE", f"{f.qualname}: `{what}` divides by a quantity that a dominating test excludes from zero", nontrivial=False)
+            elif isinstance(d, ast.Call) and ast.unparse(d.func) == "len" or (isinstance(d, ast.Name) and cv is NO and _len_derived(f, d.id)):
+                ctx.undecided_site("R-SWALLOWED-RAISE", f"{f.qualname}: `{what}`", "divisor is a length / count of the constraint's variables (non-zero by the posting contract)")
+            else:
+                for reg, chain in sorted(regs.items())[:1]:
+                    n_bad += 1
+                    ctx.violation("R-SWALLOWED-RAISE", f.path, f.qualname, f"division:{reg}", f"{f.path}:{n.lineno}",
+                                  f"`{what}` in {f.qualname} is reached from compiled code only through a function pointer ({reg}: {' -> '.join(chain)}) and nothing "
+                                  "excludes a zero divisor: compiled code raises ZeroDivisionError there, the exception is discarded ('Exception ignored') and the "
+                                  "caller goes on with an arbitrary status (a consistent node is taken for a failure: solutions are lost); interpreted code "
+                                  "computes inf / nan instead and carries on differently")
     if not n_bad:
         ctx.ok("R-SWALLOWED-RAISE", "no raise statement in any function reached through a function pointer",
                sample={"functions": len(clo), "registries": sorted(set(prog.dispatch_types().values()))})
